@@ -244,6 +244,17 @@ func genIface(r *rand.Rand, idx int, placement string, stream string) IfaceJ {
 		it.Methods = append(it.Methods, MethodJ{Name: "VisitNode", Params: []VarJ{{Type: TyJ{K: "pointer", Elem: &lu}}, {Type: lu2}},
 			Results: []VarJ{{Type: TyJ{K: "universe", Name: "error"}}}})
 	}
+	if stream == "" && !used["PutBytes"] && r.Intn(3) == 0 {
+		// unnamed parameters of named types whose derived names are the predeclared `byte` / `rune`, which the same
+		// signature uses inside composite types
+		bt := TyJ{K: "named", Pkg: pkgSrc, PkgName: "src", Name: "Byte"}
+		rt := TyJ{K: "named", Pkg: pkgSrc, PkgName: "src", Name: "Rune"}
+		bb, rr := basicT("byte"), basicT("rune")
+		used["PutBytes"], used["PutRunes"] = true, true
+		it.Methods = append(it.Methods,
+			MethodJ{Name: "PutBytes", Params: []VarJ{{Type: bt}, {Type: TyJ{K: "slice", Elem: &bb}}}, Results: []VarJ{{Type: basicT("int")}, {Type: TyJ{K: "universe", Name: "error"}}}},
+			MethodJ{Name: "PutRunes", Params: []VarJ{{Type: rt}, {Type: TyJ{K: "slice", Elem: &rr}}}, Variadic: true, Results: []VarJ{{Type: TyJ{K: "universe", Name: "error"}}}})
+	}
 	// embedded interfaces: a method may be reached along several paths as long as it is the same declaration
 	tree := &IfaceTreeJ{Src: it.Name, Own: []string{}, Embeds: []IfaceTreeJ{}}
 	for _, m := range it.Methods {
